@@ -68,6 +68,32 @@ Theorem C07_keyed_pair_refuted :
 Proof. exact keyed_pair_refuted. Qed.
 Print Assumptions C07_keyed_pair_refuted.
 
+(* PROPOSED REPAIR (fixes/C07_keyed_skip_bottom.diff; not the code in /repo): KeyedBimorphism that
+   skips entries whose value is bottom on either side.  It is a (bottom-preserving) bimorphism for
+   ANY wrapped bimorphism f -- no bottom-preservation hypothesis on f -- ... *)
+Theorem C07_keyed_fixed_parametric :
+  forall (VA VB VO : Type) (LA : LatOps VA) (LB : LatOps VB) (LO : LatOps VO),
+    LatLaws LA -> LatLaws LB -> LatLaws LO ->
+    forall f : VA -> VB -> VO, Bimorph LA LB LO f ->
+      Bimorph (map_ops LA) (map_ops LB) (map_ops LO) (keyed_fixed LA LB f) /\
+      Strict (map_ops LA) (map_ops LB) (map_ops LO) (keyed_fixed LA LB f).
+Proof. exact keyed_fixed_bimorph. Qed.
+Print Assumptions C07_keyed_fixed_parametric.
+
+(* ... so with the repair every shape, PairBimorphism under KeyedBimorphisms included, distributes *)
+Theorem C07_fixed_all_shapes : forall s, types_ok s = true ->
+  forall (a da : val (ty_a s)) (b db : val (ty_b s)),
+    W (ops (ty_a s)) a -> W (ops (ty_a s)) da -> W (ops (ty_b s)) b -> W (ops (ty_b s)) db ->
+    E (ops (ty_o s)) (bapply_fixed s (m (ops (ty_a s)) a da) b)
+                     (m (ops (ty_o s)) (bapply_fixed s a b) (bapply_fixed s da b)) /\
+    E (ops (ty_o s)) (bapply_fixed s a (m (ops (ty_b s)) b db))
+                     (m (ops (ty_o s)) (bapply_fixed s a b) (bapply_fixed s a db)).
+Proof.
+  intros s OK a da b db Wa Wda Wb Wdb. pose proof (shape_fixed_bimorph s OK) as BM.
+  exact (conj (bm_l BM Wa Wda Wb) (bm_r BM Wa Wb Wdb)).
+Qed.
+Print Assumptions C07_fixed_all_shapes.
+
 (* the executable form evaluated by the correspondence check is implied by the theorem *)
 Theorem C07_holds_b_sound : forall s, shape_ok s = true ->
   forall (a da : val (ty_a s)) (b db : val (ty_b s)),
